@@ -30,19 +30,11 @@ theorem C03_no_hang (o : Opts) (bytes : List Nat) (ops : List Op) (hb : IsBytes 
 example : IsBytes [14, 32, 154, 82] ∧ OpOK (.reset {} [1, 2, 255]) ∧ OpOK .decode := by
   refine ⟨by simp [IsBytes], by simp [OpOK, IsBytes], trivial⟩
 
-/-- the answer a dead decoder (sticky error `e`) gives to an operation -/
-def stickyOut (e : Err) : Op → Out
-  | .next => .bool false
-  | .checkIntegrity => .integrity 0 (some e)
-  | _ => .err e
-
 /-- **Sticky error.** Once `d.err` is set, every entry point other than `Reset` returns that error (`Next`: false,
 `CheckIntegrity`: 0 sequences and the error), calls no listener and leaves the decoder's state as it is. -/
 theorem C03_sticky (a : Api) (e : Err) (h : a.d.q.err = some e) (op : Op) (hop : ∀ o b, op ≠ .reset o b) :
-    (step a op).2 = (stickyOut e op, []) ∧ (step a op).1.d = a.d := by
-  cases op <;>
-    simp_all [step, stickyOut, stepDecode, stepDecodeCtx, stepPeekHeader, stepPeekFileId, stepDiscard, stepNext,
-      stepCheckIntegrity, Api.advance]
+    (step a op).2 = (stickyOut e op, []) ∧ (step a op).1 = a :=
+  step_sticky a e h op hop
 
 /-- **An error sticks.** When `Decode`, `DecodeWithContext`, `PeekFileHeader`, `PeekFileId` or `Discard` returns an error,
 that error is the decoder's `d.err` afterwards (so `C03_sticky` applies to everything that follows). The verdict of
